@@ -138,7 +138,7 @@ def run_tlc(module, cfg, env=None, workers=1, timeout=900, cwd=TLA, extra=None, 
     t0 = time.time()
     md = metadir or os.path.join(OUT, "tlc-md", "%s-%d-%s" % (os.path.basename(cfg), os.getpid(), uuid.uuid4().hex[:12]))
     os.makedirs(md, exist_ok=True)
-    cmd = ["java", "-XX:+UseParallelGC", "-Xss64m", "-Xmx" + xmx]
+    cmd = ["java", "-XX:+UseParallelGC", "-Xss" + os.environ.get("VERIF_XSS", "512m"), "-Xmx" + xmx]
     if deque:
         cmd.append("-Dtlc2.tool.queue.IStateQueue=StateDeque")
     cmd += ["-cp", JAR, "tlc2.TLC", "-workers", str(workers), "-metadir", md, "-config", cfg]
@@ -189,8 +189,9 @@ def run_tlc(module, cfg, env=None, workers=1, timeout=900, cwd=TLA, extra=None, 
         mm = re.search(r"Error: (.*)", r.out)
         r.error_text = r.out[-2500:] if not mm else r.out[mm.start():mm.start() + 2500]
     if coverage:
-        for mm in re.finditer(r"<(\w+) line \d+, col \d+ to line \d+, col \d+ of module (\w+)>: (\d+):(\d+)", r.out):
-            r.coverage[mm.group(1)] = (int(mm.group(3)), int(mm.group(4)))
+        for mm in re.finditer(r"<(\w+) line \d+, col \d+ to line \d+, col \d+ of module (\w+)(?: \([\d ]+\))?>: (\d+):(\d+)", r.out):
+            a, b = r.coverage.get(mm.group(1), (0, 0))
+            r.coverage[mm.group(1)] = (a + int(mm.group(3)), b + int(mm.group(4)))
     return r
 
 
@@ -289,8 +290,37 @@ def _segments(path):
     return segs, lines
 
 
-def validate(traces, checks, module="FlowTrace.tla", cfg="FlowTrace.cfg", timeout=1500, nproc=NCPU,
-             xmx="3g", diag=True, max_cuts=25):
+def _split_trace(tp, max_bytes):
+    """Cuts a trace into parts of at most max_bytes (whole Reset segments; a single larger segment
+    stays whole).  Returns the list of part paths (the trace itself when small enough)."""
+    try:
+        if os.path.getsize(tp) <= max_bytes:
+            return [tp]
+    except OSError:
+        return [tp]
+    parts, cur, size = [], [], 0
+
+    def flush():
+        nonlocal cur, size
+        if cur:
+            pp = "%s.part%03d" % (tp, len(parts))
+            with open(pp, "w") as f:
+                f.writelines(cur)
+            parts.append(pp)
+        cur, size = [], 0
+
+    with open(tp) as f:
+        for ln in f:
+            if ln.startswith('{"e":"Reset"') and size >= max_bytes:
+                flush()
+            cur.append(ln)
+            size += len(ln)
+    flush()
+    return parts
+
+
+def validate(traces, checks, module="FlowTrace.tla", cfg="FlowTrace.cfg", timeout=2400, nproc=NCPU,
+             xmx="3g", diag=True, max_cuts=25, max_bytes=1500000):
     """Validates traces against a trace specification.
 
     Returns (accepted_lines, failures): failures is a list of (trace_path, conjunct, line, case_id).
@@ -385,8 +415,13 @@ def validate(traces, checks, module="FlowTrace.tla", cfg="FlowTrace.cfg", timeou
                 break
         return tp, n, fails, states, gen
 
+    # large traces are cut at Reset boundaries (every execution starts from the specification's initial
+    # state and has its own rank domain) so that no single TLC run grows with the size of the campaign
+    parts = []
+    for tp in traces:
+        parts += _split_trace(tp, max_bytes)
     with ThreadPoolExecutor(max_workers=nproc) as ex:
-        res = list(ex.map(one, traces))
+        res = list(ex.map(one, parts))
     lines = sum(r[1] for r in res)
     failures = [f for r in res for f in r[2]]
     validate.last_states = sum(r[3] for r in res)
